@@ -82,6 +82,9 @@ FLOORS = {
                               "notfound": 90000, "evicting_loads": 170000,
                               "exec_dict": 400000, "exec_func": 80000, "exec_funcup": 80000,
                               "exec_fs": 80000, "histories_len6": 50000, "exec_fsdn": 49000,
+                              "exec_pkg": 80000, "exec_pkgdn": 11000,
+                              "empty_template_served": 330000, "lookup_of_deleted_cached": 130000,
+                              "pkg_reload_check_on_deleted_file": 7500,
                               "exec_fszz": 11000, "exec_size3": 190000, "long_histories": 3200,
                               "cache_len_checks": 2800000, "cache_content_checks": 2800000,
                               "cache_order_checks": 2200000, "reload_in_full_cache": 17000,
